@@ -6,7 +6,7 @@ TERMS = ["a", "b", "c"]
 DYADIC = [Fraction(1, 2), Fraction(1, 4), Fraction(1, 8), Fraction(3, 8), Fraction(1, 16), Fraction(3, 16), Fraction(1), Fraction(5, 8), Fraction(3, 4)]
 SMALL = [Fraction(1, 2), Fraction(1, 4), Fraction(1, 8), Fraction(3, 8), Fraction(1, 16), Fraction(3, 16)]
 
-CFG_SHAPES = ["plain", "nullable", "nullable_cycle", "unary_chain", "unary_cycle", "left_rec", "right_rec",
+CFG_SHAPES = ["plain", "nullable", "nullable_run", "nullable_run", "mutual_left_rec", "mutual3", "nullable_cycle", "unary_chain", "unary_cycle", "left_rec", "right_rec",
               "useless", "nongen_start", "dup_rules", "start_on_rhs", "repeat_sym", "undefined_nt", "mixed",
               "empty_lang", "eps_only"]
 
@@ -75,6 +75,40 @@ def gen_cfg(rng, shape=None, nnt=None, nterms=None, convergent=True, maxrules=8,
     if shape == "nullable":
         for X in rng.sample(nts, rng.randint(1, len(nts))):
             rules.append([rng.choice(W), X, []])
+    elif shape == "nullable_run":
+        # a token behind a RUN of nullable nonterminals in a long body (binarisation folds the run into fresh
+        # nonterminals which must be nullable too; derivatives multiply the skipped null weights)
+        n1, n2 = rng.choice(nts), rng.choice(nts + ["Nz"])
+        for X in {n1, n2}:
+            rules.append([rng.choice(SMALL), X, []])
+            rules.append([rng.choice(SMALL), X, [rng.choice(terms)]])
+        t = rng.choice(terms)
+        rules.append([rng.choice(W), A, [n1, n2, t] + ([rng.choice(terms + nts)] if rng.random() < 0.4 else [])])
+        if rng.random() < 0.5:
+            rules.append([rng.choice(SMALL), "S", [n2, n1, n1, rng.choice(terms)]])
+        rules.append([rng.choice(W), "S", [rng.choice(terms)]])
+    elif shape == "mutual_left_rec":
+        # left-corner cycle through several nonterminals, entered at different symbols by different start rules
+        cyc = [f"L{k}" for k in range(rng.choice([2, 3, 3]))]
+        for k, X in enumerate(cyc):
+            rules.append([rng.choice(SMALL), X, [cyc[(k + 1) % len(cyc)], rng.choice(terms)]])
+        rules.append([rng.choice(W), cyc[-1], [rng.choice(terms)]])
+        if rng.random() < 0.5:
+            rules.append([rng.choice(W), cyc[0], [rng.choice(terms)]])
+        for X in cyc:
+            rules.append([rng.choice(W), "S", [rng.choice(terms), X]])
+        if rng.random() < 0.5:
+            rules.append([rng.choice(W), "S", [cyc[0]]])
+    elif shape == "mutual3":
+        # three (or four) mutually recursive nonterminals with chords: one SCC that a DFS can enter and close in many orders
+        m = [f"M{k}" for k in rng.sample(range(9), rng.choice([3, 3, 4]))]
+        for k, X in enumerate(m):
+            rules.append([rng.choice(SMALL), X, [m[(k + 1) % len(m)], rng.choice(terms)]])
+            rules.append([rng.choice(W), X, [rng.choice(terms)]])
+        for _ in range(rng.randint(1, 3)):
+            x, y = rng.sample(m, 2)
+            rules.append([rng.choice(SMALL), x, [rng.choice(terms), y] if rng.random() < 0.5 else [y, y]])
+        rules.append([rng.choice(W), "S", [rng.choice(m), rng.choice(m)] if rng.random() < 0.5 else [rng.choice(m)]])
     elif shape == "nullable_cycle":
         rules.append([rng.choice(W), A, []])
         rules.append([rng.choice(SMALL), A, [A, A]])
@@ -357,6 +391,11 @@ def gen_fst(rng, shape=None, nstates=None, in_syms=None, out_syms=None):
         if shape in ("eps_eps", "cyclic") and rng.random() < 0.3:
             a, b = rng.choice([("", ""), ("", b), (a, "")])
         arcs.append([states[i], a, b, states[j], rng.choice(W if a and b else SMALL)])
+    if arcs and rng.random() < 0.4:
+        # parallel arcs: same states and same label on one tape, different label on the other
+        e = rng.choice(arcs)
+        arcs.append([e[0], e[1], rng.choice(B + [""]), e[3], rng.choice(SMALL)])
+        arcs.append([e[0], rng.choice(A + [""]), e[2], e[3], rng.choice(SMALL)])
     if shape == "cyclic":
         i = rng.randrange(n)
         arcs.append([states[i], "", "", states[i], rng.choice(SMALL)])
@@ -428,5 +467,8 @@ def gen_finite_cfg(rng, terms=None, weights=None):
     if rng.random() < 0.3:
         r = rng.choice(rules)
         rules.append([rng.choice(W), r[1], list(r[2])])           # duplicate
+    if rng.random() < 0.3:
+        r = rng.choice(rules)
+        rules.append([r[0], r[1], list(r[2])])                    # exact duplicate (same weight)
     rng.shuffle(rules)
     return {"S": "S", "V": sorted(terms), "rules": [[frac_str(w), h, b] for w, h, b in rules]}
